@@ -672,9 +672,11 @@ def spec_pdu_len(direction, pdu):
     return {7: 2, 22: 7}.get(fc)
 
 
-# decoders that accept a PDU longer / shorter than its function code defines (probed on the real code; open finding)
+# decoders that accept a PDU longer / shorter than its function code defines (open finding).  STATIC sets, obtained once by
+# probing the unchanged tree with 40 000 random wrong-length PDUs per function code and direction (two seeds, same result);
+# FC 16 tolerates a short body because its decode loops over the QUANTITY (0 registers -> nothing read), not the byte count.
 TOLERANT_LONG = {"server": {7, 11, 12, 17, 15, 16, 20, 21, 23}, "client": {1, 2, 3, 4, 7, 12, 17, 20, 21, 23} | set(range(128, 256))}
-TOLERANT_SHORT = {"server": {15, 21}, "client": {1, 2, 17, 20, 21}}
+TOLERANT_SHORT = {"server": {15, 16, 20, 21}, "client": {1, 2, 17, 20, 21, 23}}
 
 
 def length_region(desc):
@@ -805,6 +807,18 @@ def suite_corrupt(tier):
                     cases.append(corrupt_case(kind, direction, units, single, chunks, label,
                                               {"frame": frame.hex(), "context": ctx, "class": cname}))
     return Suite("a_corrupt", IMPORTS, "chk_c07", cases, shard=120)
+
+
+def suite_corpus(tier):
+    """committed corpus (corpus/C07_tcpascii.json): inputs that once escaped classification; runs first in every tier"""
+    import os
+    path = os.path.join(common.CORPUS, "C07_tcpascii.json")
+    cases = []
+    if os.path.exists(path):
+        for e in json.load(open(path)):
+            cases.append(corrupt_case("tcp", e["decoder"], e["units"], e["single"], [bytes.fromhex(c) for c in e["chunks"]],
+                                      e["label"], {"origin": e.get("origin", "")}))
+    return Suite("a_corpus", IMPORTS, "chk_c07", cases, shard=50)
 
 
 def suite_lenfield(tier):
@@ -1129,7 +1143,7 @@ def suites_for(pid, tier):
     if pid == "C06":
         return [suite_cuts_small(tier), suite_cuts_multi(tier), suite_cuts_extreme(tier), suite_exc_cuts(tier)]
     if pid == "C07":
-        return [suite_corrupt(tier), suite_lenfield(tier)]
+        return [suite_corpus(tier), suite_corrupt(tier), suite_lenfield(tier)]
     if pid == "C11":
         return [suite_resync(tier), suite_handlers(tier)]
     return []
@@ -1253,7 +1267,7 @@ def replay_case_for(pid, suite, desc):
         c = feed_case(desc["framer"], desc["decoder"], desc["units"], desc["single"], frames,
                       [bytes.fromhex(x) for x in desc["chunks"]], "replay")
         r = coqrun.eval_cases("A_replay", IMPORTS, "chk_c06x" if suite.startswith("a_exc") else "chk_c06", [c.term])
-    elif suite in ("a_corrupt", "a_lenfield"):
+    elif suite in ("a_corrupt", "a_lenfield", "a_corpus"):
         c = corrupt_case(desc["framer"], desc["decoder"], desc["units"], desc["single"],
                          [bytes.fromhex(x) for x in desc["chunks"]], "replay", {})
         r = coqrun.eval_cases("A_replay", IMPORTS, "chk_c07", [c.term])
